@@ -4,10 +4,12 @@ import Mathlib.Data.List.Basic
 import Mathlib.Tactic
 
 /-!
-# Texts as lists of characters (TEXT theory of `pyvc/texts.py`, unit `lemma.cxt.roundtrip`)
+# Texts as lists of characters (TEXT theory of `pyvc/texts.py`, units `lemma.cxt.roundtrip`,
+`lemma.table.roundtrip`, `lemma.fimi.roundtrip` and the `.written` / `.chars` units)
 
 A Python `str` is modelled by the list of its characters (code points).  The functions below are the
-MODEL of the CPython string functions that `concepts/formats/cxt.py` uses; that CPython's functions
+MODEL of the CPython string functions that `concepts/formats/cxt.py`, `table.py` and `fimi.py` use
+(the table / FIMI part has its own section and dictionary further down); that CPython's functions
 agree with them is an ASSUMED library contract, validated on an enumerated scope by
 `pyvc/texts.py: selftest()` (which also runs the definitions of this file with `#eval` and compares
 the results with CPython, `selftest_lean()`).
@@ -583,6 +585,579 @@ theorem cxt_roundtrip (symT symF : Char) (hne : symT ≠ symF)
   · rfl
   · rfl
 
+/-! ## the table format (`concepts/formats/table.py`) and the FIMI index rows (`concepts/formats/fimi.py`):
+padding, `partition`, `strip` of a given character, `rstrip` of a whole text, the lines of a text file
+
+Dictionary (Python on the left; `sp = ' '`, `bar = '|'`, `hash = '#'`):
+
+* `s.ljust(w)`                     `ljust sp w s`
+* `s.rjust(w)`                     `rjust sp w s`
+* `tmpl % tuple(args)`             `pctFormat tmpl args` (templates of literal text and `%-<digits>s` / `%<digits>s`; at the end of the file)
+* `' ' * k`                         `replicate k sp`
+* `s.lstrip()`, `s.rstrip()`        `lstrip ws s`, `rstrip ws s`  (`strip ws s = rstrip ws (lstrip ws s)`, by definition)
+* `s.strip('|')`, `.lstrip('|')`, `.rstrip('|')`   `stripC bar s`, `lstripC bar s`, `rstripC bar s`
+* `s.partition(c)[0]`, `[1]`, `[2]`  `before c s`, `sepOf c s`, `after c s`  (one-character separator)
+* `s.split('|')`                    `s.splitOn bar` (core)
+* `for line in file` (io.StringIO)  `linesKeep nl text` (line ends kept)
+* `bool(s)`                         `s ≠ []`
+* the fields the csv reader (delimiter `' '`, no quoting) makes of a line   `csvFields sp line`
+-/
+
+/-- `s.ljust(w)` -/
+def ljust (pad : α) (w : Nat) (s : List α) : List α := s ++ replicate (w - s.length) pad
+
+/-- `s.rjust(w)` -/
+def rjust (pad : α) (w : Nat) (s : List α) : List α := replicate (w - s.length) pad ++ s
+
+/-- `s.lstrip()` -/
+def lstrip (ws : α → Bool) (s : List α) : List α := s.dropWhile ws
+
+/-- `s.rstrip()` -/
+def rstrip (ws : α → Bool) (s : List α) : List α := s.rdropWhile ws
+
+/-- `s.strip(c)` for a one-character `c` -/
+def stripC (c : α) (s : List α) : List α := strip (fun x => decide (x = c)) s
+
+/-- `s.lstrip(c)` -/
+def lstripC (c : α) (s : List α) : List α := lstrip (fun x => decide (x = c)) s
+
+/-- `s.rstrip(c)` -/
+def rstripC (c : α) (s : List α) : List α := rstrip (fun x => decide (x = c)) s
+
+/-- `s.partition(sep)[0]` for a one-character separator -/
+def before (sep : α) (s : List α) : List α := s.takeWhile (fun x => !decide (x = sep))
+
+/-- `s.partition(sep)[2]` for a one-character separator -/
+def after (sep : α) (s : List α) : List α := (s.dropWhile (fun x => !decide (x = sep))).tail
+
+/-- `s.partition(sep)[1]` for a one-character separator: the separator if it occurs, else the empty text -/
+def sepOf (sep : α) (s : List α) : List α := if sep ∈ s then [sep] else []
+
+/-- the lines a text yields when iterated as a file (`for line in io.StringIO(text)`): cut BEHIND every line end, line ends kept -/
+def linesKeep (nl : α) : List α → List (List α)
+  | [] => []
+  | c :: cs =>
+    if c = nl then [c] :: linesKeep nl cs
+    else match linesKeep nl cs with
+      | [] => [[c]]
+      | l :: ls => (c :: l) :: ls
+
+/-- the fields the csv reader makes of one line (delimiter `sp`, no quoting): an EMPTY line has NO field (not one empty field) -/
+def csvFields (sp : α) (l : List α) : List (List α) := if l = [] then [] else l.splitOn sp
+
+theorem strip_eq_rstrip_lstrip (ws : α → Bool) (s : List α) : strip ws s = rstrip ws (lstrip ws s) := rfl
+
+/-! ### dropWhile / rdropWhile over concatenations -/
+
+theorem dropWhile_append_all (p : α → Bool) (a l : List α) (h : ∀ c ∈ a, p c = true) :
+    (a ++ l).dropWhile p = l.dropWhile p := by
+  induction a with
+  | nil => rfl
+  | cons c cs ih =>
+    have hc := h c (by simp)
+    simp only [cons_append, dropWhile_cons, hc, if_true]
+    exact ih (fun x hx => h x (by simp [hx]))
+
+theorem dropWhile_append_stop (p : α → Bool) (x z : List α) (hne : z ≠ []) (hz : ∀ c ∈ z.head?, p c = false) :
+    (x ++ z).dropWhile p = x.dropWhile p ++ z := by
+  induction x with
+  | nil =>
+    obtain ⟨c, cs, rfl⟩ := exists_cons_of_ne_nil hne
+    simp [dropWhile_cons, hz c (by simp)]
+  | cons c cs ih =>
+    by_cases hc : p c = true
+    · simp only [cons_append, dropWhile_cons, hc, if_true]; exact ih
+    · simp [dropWhile_cons, hc]
+
+theorem rdropWhile_append_all (p : α → Bool) (l r : List α) (h : ∀ c ∈ r, p c = true) :
+    (l ++ r).rdropWhile p = l.rdropWhile p := by
+  induction r using List.reverseRecOn with
+  | nil => simp
+  | append_singleton r a ih =>
+    rw [← append_assoc, rdropWhile_concat_pos _ _ _ (h a (by simp))]
+    exact ih (fun x hx => h x (by simp [hx]))
+
+theorem rdropWhile_append_stop (p : α → Bool) (x z : List α) (hne : z ≠ []) (hz : ∀ c ∈ z.getLast?, p c = false) :
+    (x ++ z).rdropWhile p = x ++ z := by
+  rw [rdropWhile_eq_self_iff]
+  intro hl
+  have h1 : (x ++ z).getLast? = z.getLast? := getLast?_append_of_ne_nil _ hne
+  rw [getLast?_eq_some_getLast hl] at h1
+  have := hz _ h1.symm
+  simp [this]
+
+theorem dropWhile_eq_self_of_head (p : α → Bool) (l : List α) (h : ∀ c ∈ l.head?, p c = false) : l.dropWhile p = l := by
+  cases l with
+  | nil => rfl
+  | cons c cs => simp [dropWhile_cons, h c (by simp)]
+
+/-- padding, text `x`, a core `z` that neither starts nor ends with whitespace, trailing whitespace: `strip` leaves `x` without its
+leading whitespace, then `z` -/
+theorem strip_sandwich (ws : α → Bool) (a x z b : List α) (ha : ∀ c ∈ a, ws c = true) (hb : ∀ c ∈ b, ws c = true)
+    (hne : z ≠ []) (hh : ∀ c ∈ z.head?, ws c = false) (hl : ∀ c ∈ z.getLast?, ws c = false) :
+    strip ws (a ++ (x ++ z) ++ b) = lstrip ws x ++ z := by
+  unfold strip lstrip
+  have hzb : z ++ b ≠ [] := by simp [hne]
+  have hhead : ∀ c ∈ (z ++ b).head?, ws c = false := by
+    intro c hc
+    rw [head?_append_of_ne_nil _ hne] at hc
+    exact hh c hc
+  rw [append_assoc, dropWhile_append_all ws a _ ha, append_assoc, dropWhile_append_stop ws x (z ++ b) hzb hhead,
+    ← append_assoc, rdropWhile_append_all ws _ b hb, rdropWhile_append_stop ws _ z hne hl]
+
+theorem strip_lstrip (ws : α → Bool) (x : List α) : strip ws (lstrip ws x) = strip ws x := by
+  unfold strip lstrip
+  congr 1
+  induction x with
+  | nil => rfl
+  | cons c cs ih =>
+    by_cases hc : ws c = true
+    · simp only [dropWhile_cons, hc, if_true]; exact ih
+    · simp [dropWhile_cons, hc]
+
+theorem lstrip_all (ws : α → Bool) (x : List α) (h : ∀ c ∈ x, ws c = true) : lstrip ws x = [] := by
+  unfold lstrip
+  rw [dropWhile_eq_nil_iff]
+  exact h
+
+/-- `rstrip` of the text that printing the lines leaves: the final line end goes, nothing else -- provided the last line is not
+empty and does not end with whitespace -/
+theorem rstrip_unlines (ws : α → Bool) (nl : α) (hnl : ws nl = true) (ls : List (List α)) (hne : ls ≠ [])
+    (hlast : ∀ last ∈ ls.getLast?, last ≠ [] ∧ ∀ c ∈ last.getLast?, ws c = false) :
+    rstrip ws (unlines nl ls) = [nl].intercalate ls := by
+  obtain ⟨last, hl⟩ : ∃ last, ls.getLast? = some last := by
+    cases h : ls.getLast? with
+    | none => exact absurd (getLast?_eq_none_iff.mp h) hne
+    | some x => exact ⟨x, rfl⟩
+  obtain ⟨hlne, hlws⟩ := hlast last hl
+  unfold rstrip
+  rw [unlines_eq nl ls hne, rdropWhile_concat_pos _ _ _ hnl, rdropWhile_eq_self_iff]
+  intro hj
+  have h1 : ([nl].intercalate ls).getLast? = last.getLast? := getLast?_intercalate nl ls last hl hlne
+  rw [getLast?_eq_some_getLast hj] at h1
+  have := hlws _ h1.symm
+  simp [this]
+
+/-! ### padding -/
+
+theorem mem_ljust (pad : α) (w : Nat) (s : List α) (c : α) (h : c ∈ ljust pad w s) : c ∈ s ∨ c = pad := by
+  unfold ljust at h
+  rw [mem_append, mem_replicate] at h
+  rcases h with h | h
+  · exact Or.inl h
+  · exact Or.inr h.2
+
+theorem mem_rjust (pad : α) (w : Nat) (s : List α) (c : α) (h : c ∈ rjust pad w s) : c ∈ s ∨ c = pad := by
+  unfold rjust at h
+  rw [mem_append, mem_replicate] at h
+  rcases h with h | h
+  · exact Or.inr h.2
+  · exact Or.inl h
+
+theorem length_ljust (pad : α) (w : Nat) (s : List α) : (ljust pad w s).length = max s.length w := by
+  unfold ljust
+  rw [length_append, length_replicate]
+  omega
+
+theorem length_rjust (pad : α) (w : Nat) (s : List α) : (rjust pad w s).length = max s.length w := by
+  unfold rjust
+  rw [length_append, length_replicate]
+  omega
+
+theorem ljust_ne_nil (pad : α) (w : Nat) (s : List α) (h : s ≠ [] ∨ 1 ≤ w) : ljust pad w s ≠ [] := by
+  intro h0
+  have := length_ljust pad w s
+  rw [h0] at this
+  simp only [length_nil] at this
+  rcases h with h | h
+  · exact h (length_eq_zero_iff.mp (by omega))
+  · omega
+
+theorem rjust_ne_nil (pad : α) (w : Nat) (s : List α) (h : s ≠ [] ∨ 1 ≤ w) : rjust pad w s ≠ [] := by
+  intro h0
+  have := length_rjust pad w s
+  rw [h0] at this
+  simp only [length_nil] at this
+  rcases h with h | h
+  · exact h (length_eq_zero_iff.mp (by omega))
+  · omega
+
+/-- `strip` of a padded label is the label (the label neither starts nor ends with whitespace; the empty label included) -/
+theorem strip_ljust (ws : α → Bool) (pad : α) (hpad : ws pad = true) (w : Nat) (s : List α)
+    (hh : ∀ c ∈ s.head?, ws c = false) (hl : ∀ c ∈ s.getLast?, ws c = false) :
+    strip ws (ljust pad w s) = s := by
+  have hr : ∀ c ∈ replicate (w - s.length) pad, ws c = true := by
+    intro c hc
+    rw [mem_replicate] at hc
+    rw [hc.2]; exact hpad
+  unfold ljust strip
+  cases s with
+  | nil =>
+    rw [nil_append, (dropWhile_eq_nil_iff).mpr (by simpa using hr)]
+    rfl
+  | cons c cs =>
+    have h1 : (c :: cs ++ replicate (w - (c :: cs).length) pad).dropWhile ws = c :: cs ++ replicate (w - (c :: cs).length) pad := by
+      simp [dropWhile_cons, hh c (by simp)]
+    rw [h1, rdropWhile_append_all ws _ _ hr]
+    have := strip_eq_self ws (c :: cs) hh hl
+    unfold strip at this
+    have h2 : (c :: cs).dropWhile ws = c :: cs := by simp [dropWhile_cons, hh c (by simp)]
+    rwa [h2] at this
+
+theorem strip_rjust (ws : α → Bool) (pad : α) (hpad : ws pad = true) (w : Nat) (s : List α)
+    (hh : ∀ c ∈ s.head?, ws c = false) (hl : ∀ c ∈ s.getLast?, ws c = false) :
+    strip ws (rjust pad w s) = s := by
+  have hr : ∀ c ∈ replicate (w - s.length) pad, ws c = true := by
+    intro c hc
+    rw [mem_replicate] at hc
+    rw [hc.2]; exact hpad
+  unfold rjust strip
+  rw [dropWhile_append_all ws _ _ hr]
+  exact strip_eq_self ws s hh hl
+
+theorem ljust_all (ws : α → Bool) (pad : α) (hpad : ws pad = true) (w : Nat) (s : List α) (h : ∀ c ∈ s, ws c = true) :
+    ∀ c ∈ ljust pad w s, ws c = true := by
+  intro c hc
+  rcases mem_ljust pad w s c hc with h1 | h1
+  · exact h c h1
+  · rw [h1]; exact hpad
+
+theorem rjust_all (ws : α → Bool) (pad : α) (hpad : ws pad = true) (w : Nat) (s : List α) (h : ∀ c ∈ s, ws c = true) :
+    ∀ c ∈ rjust pad w s, ws c = true := by
+  intro c hc
+  rcases mem_rjust pad w s c hc with h1 | h1
+  · exact h c h1
+  · rw [h1]; exact hpad
+
+theorem ljust_eq_self (pad : α) (w : Nat) (s : List α) (h : w ≤ s.length) : ljust pad w s = s := by
+  unfold ljust
+  rw [Nat.sub_eq_zero_of_le h]
+  simp
+
+theorem rjust_eq_self (pad : α) (w : Nat) (s : List α) (h : w ≤ s.length) : rjust pad w s = s := by
+  unfold rjust
+  rw [Nat.sub_eq_zero_of_le h]
+  simp
+
+/-- `strip` of a text of whitespace characters only is the empty text -/
+theorem strip_all (ws : α → Bool) (x : List α) (h : ∀ c ∈ x, ws c = true) : strip ws x = [] := by
+  unfold strip
+  rw [dropWhile_eq_nil_iff.mpr (by simpa using h)]
+  rfl
+
+/-! ### partition at a character -/
+
+theorem before_after_of_not_mem (sep : α) (s : List α) (h : sep ∉ s) : before sep s = s ∧ after sep s = [] := by
+  unfold before after
+  have hall : ∀ x ∈ s, (!decide (x = sep)) = true := by
+    intro x hx
+    have : x ≠ sep := fun e => h (e ▸ hx)
+    simp [this]
+  refine ⟨takeWhile_eq_self_iff.mpr (by simpa using hall), ?_⟩
+  rw [dropWhile_eq_nil_iff.mpr (by simpa using hall)]
+  rfl
+
+theorem before_after_append_sep (sep : α) (a b : List α) (h : sep ∉ a) :
+    before sep (a ++ sep :: b) = a ∧ after sep (a ++ sep :: b) = b := by
+  unfold before after
+  induction a with
+  | nil => simp [takeWhile_cons, dropWhile_cons]
+  | cons c cs ih =>
+    have hc : c ≠ sep := fun e => h (by simp [e])
+    have hcs : sep ∉ cs := fun e => h (by simp [e])
+    obtain ⟨i1, i2⟩ := ih hcs
+    constructor
+    · simp only [cons_append, takeWhile_cons, hc, decide_false, Bool.not_false, if_true]
+      rw [i1]
+    · simp only [cons_append, dropWhile_cons, hc, decide_false, Bool.not_false, if_true]
+      exact i2
+
+theorem sepOf_of_not_mem (sep : α) (s : List α) (h : sep ∉ s) : sepOf sep s = [] := by
+  simp [sepOf, h]
+
+theorem sepOf_append_sep (sep : α) (a b : List α) : sepOf sep (a ++ sep :: b) = [sep] := by
+  simp [sepOf]
+
+/-! ### strip of a given character around joined cells -/
+
+theorem head?_intercalate' (bar : α) (l : List α) (ls : List (List α)) (hl : l ≠ []) :
+    ([bar].intercalate (l :: ls)).head? = l.head? := head?_intercalate bar l ls hl
+
+/-- cells (non-empty, without the bar) joined with the bar and closed with a bar: `strip('|')` (also `rstrip('|')`) takes off
+exactly the closing bar, also when the text starts with one more bar; `split('|')` then gives the cells back -/
+theorem bar_cells (bar : α) (ls : List (List α)) (hne : ls ≠ []) (h : ∀ l ∈ ls, l ≠ [] ∧ bar ∉ l) :
+    stripC bar ([bar].intercalate ls ++ [bar]) = [bar].intercalate ls ∧
+    rstripC bar ([bar].intercalate ls ++ [bar]) = [bar].intercalate ls ∧
+    lstripC bar ([bar].intercalate ls ++ [bar]) = [bar].intercalate ls ++ [bar] ∧
+    stripC bar (bar :: ([bar].intercalate ls ++ [bar])) = [bar].intercalate ls ∧
+    ([bar].intercalate ls).splitOn bar = ls ∧ [bar].intercalate ls ≠ [] := by
+  set J := [bar].intercalate ls with hJ
+  set p : α → Bool := fun x => decide (x = bar) with hp
+  have hpbar : p bar = true := by simp [hp]
+  obtain ⟨first, rest, rfl⟩ := exists_cons_of_ne_nil hne
+  obtain ⟨last, hlast⟩ : ∃ last, (first :: rest).getLast? = some last := ⟨_, getLast?_eq_some_getLast (by simp)⟩
+  have hfirst := h first (by simp)
+  have hlastm := h last (mem_of_getLast? hlast)
+  have hhead : ∀ c ∈ J.head?, p c = false := by
+    intro c hc
+    rw [hJ, head?_intercalate bar first rest hfirst.1] at hc
+    have : c ≠ bar := fun e => hfirst.2 (e ▸ mem_of_mem_head? hc)
+    simp [hp, this]
+  have hlst : ∀ c ∈ J.getLast?, p c = false := by
+    intro c hc
+    rw [hJ, getLast?_intercalate bar _ last hlast hlastm.1] at hc
+    have : c ≠ bar := fun e => hlastm.2 (e ▸ mem_of_mem_getLast? hc)
+    simp [hp, this]
+  have hJne : J ≠ [] := by
+    intro h0
+    have := head?_intercalate bar first rest hfirst.1
+    rw [← hJ, h0] at this
+    obtain ⟨c, cs, hc⟩ := exists_cons_of_ne_nil hfirst.1
+    rw [hc] at this
+    simp at this
+  have hself : strip p J = J := strip_eq_self p J hhead hlst
+  have hdrop : J.dropWhile p = J := dropWhile_eq_self_of_head p J hhead
+  have hdrop2 : (J ++ [bar]).dropWhile p = J ++ [bar] := by
+    apply dropWhile_eq_self_of_head
+    intro c hc
+    rw [head?_append_of_ne_nil _ hJne] at hc
+    exact hhead c hc
+  have hr : J.rdropWhile p = J := by
+    have := hself
+    unfold strip at this
+    rwa [hdrop] at this
+  refine ⟨?_, ?_, ?_, ?_, ?_, hJne⟩
+  · show ((J ++ [bar]).dropWhile p).rdropWhile p = J
+    rw [hdrop2, rdropWhile_concat_pos _ _ _ hpbar, hr]
+  · show (J ++ [bar]).rdropWhile p = J
+    rw [rdropWhile_concat_pos _ _ _ hpbar, hr]
+  · exact hdrop2
+  · show ((bar :: (J ++ [bar])).dropWhile p).rdropWhile p = J
+    have : (bar :: (J ++ [bar])).dropWhile p = (J ++ [bar]).dropWhile p := by
+      rw [dropWhile_cons, hpbar]; rfl
+    rw [this, hdrop2, rdropWhile_concat_pos _ _ _ hpbar, hr]
+  · exact splitOn_intercalate bar (fun l hl => (h l hl).2) (by simp)
+
+/-! ### the lines of a text file -/
+
+theorem linesKeep_line (nl : α) (rest : List α) : ∀ l : List α, nl ∉ l →
+    linesKeep nl (l ++ nl :: rest) = (l ++ [nl]) :: linesKeep nl rest
+  | [], _ => by simp [linesKeep]
+  | c :: cs, h => by
+    have hc : c ≠ nl := fun e => h (by simp [e])
+    have ih := linesKeep_line nl rest cs (fun e => h (by simp [e]))
+    rw [cons_append, linesKeep, if_neg hc, ih]
+    rfl
+
+theorem linesKeep_last (nl : α) : ∀ l : List α, nl ∉ l → l ≠ [] → linesKeep nl l = [l]
+  | [], _, h => absurd rfl h
+  | [c], h, _ => by
+    have hc : c ≠ nl := fun e => h (by simp [e])
+    simp [linesKeep, hc]
+  | c :: d :: ds, h, _ => by
+    have hc : c ≠ nl := fun e => h (by simp [e])
+    have ih := linesKeep_last nl (d :: ds) (fun e => h (by simp only [mem_cons] at e ⊢; exact Or.inr e)) (by simp)
+    rw [linesKeep, if_neg hc, ih]
+
+/-- iterating over the printed lines gives every line with its line end -/
+theorem linesKeep_unlines (nl : α) : ∀ ls : List (List α), (∀ l ∈ ls, nl ∉ l) →
+    linesKeep nl (unlines nl ls) = ls.map (· ++ [nl])
+  | [], _ => by simp [unlines, linesKeep]
+  | l :: ls, h => by
+    have ih := linesKeep_unlines nl ls (fun x hx => h x (by simp [hx]))
+    have : unlines nl (l :: ls) = l ++ nl :: unlines nl ls := by simp [unlines]
+    rw [this, linesKeep_line nl _ l (h l (by simp)), ih]
+    rfl
+
+/-- iterating over the lines joined by line ends (the printed text after `rstrip`): every line but the last with its line end -/
+theorem linesKeep_intercalate (nl : α) : ∀ (ls : List (List α)) (hne : ls ≠ []), (∀ l ∈ ls, nl ∉ l) →
+    ls.getLast hne ≠ [] →
+    linesKeep nl ([nl].intercalate ls) = ls.dropLast.map (· ++ [nl]) ++ [ls.getLast hne]
+  | [], h, _, _ => absurd rfl h
+  | [l], _, h, hl => by
+    simp only [getLast_singleton] at hl
+    simpa using linesKeep_last nl l (h l (by simp)) hl
+  | l :: l' :: ls, _, h, hl => by
+    have hl' : (l' :: ls).getLast (by simp) ≠ [] := by simpa [getLast_cons_cons] using hl
+    have ih := linesKeep_intercalate nl (l' :: ls) (by simp) (fun x hx => h x (by simp only [mem_cons] at hx ⊢; exact Or.inr hx)) hl'
+    rw [intercalate_cons_cons, show l ++ [nl] ++ [nl].intercalate (l' :: ls) = l ++ nl :: [nl].intercalate (l' :: ls) by simp,
+      linesKeep_line nl _ l (h l (by simp)), ih]
+    simp [dropLast_cons_cons, getLast_cons_cons]
+
+/-! ### one line of the table: padding, cells closed with bars -/
+
+theorem mem_intercalate_singleton (bar c : α) : ∀ ls : List (List α), c ∈ [bar].intercalate ls → c = bar ∨ ∃ l ∈ ls, c ∈ l
+  | [], h => by simp at h
+  | [l], h => by
+    simp only [intercalate_singleton] at h
+    exact Or.inr ⟨l, by simp, h⟩
+  | l :: l' :: ls, h => by
+    rw [intercalate_cons_cons, mem_append, mem_append] at h
+    rcases h with (h | h) | h
+    · exact Or.inr ⟨l, by simp, h⟩
+    · exact Or.inl (by simpa using h)
+    · rcases mem_intercalate_singleton bar c (l' :: ls) h with h1 | ⟨x, hx, hc⟩
+      · exact Or.inl h1
+      · exact Or.inr ⟨x, by simp only [mem_cons] at hx ⊢; exact Or.inr hx, hc⟩
+
+/-- a character other than the separator that no piece contains is not in the joined text -/
+theorem not_mem_intercalate (sep d : α) (ls : List (List α)) (hd : d ≠ sep) (h : ∀ l ∈ ls, d ∉ l) : d ∉ [sep].intercalate ls := by
+  intro hm
+  rcases mem_intercalate_singleton sep d ls hm with h1 | ⟨x, hx, hc⟩
+  · exact hd h1
+  · exact h x hx hc
+
+/-- a character other than the padding and the bar that no cell contains is not in the line; the line ends with the bar -/
+theorem table_line_chars (sp bar d : α) (k : Nat) (cells : List (List α)) (hd1 : d ≠ sp) (hd2 : d ≠ bar)
+    (h : ∀ c ∈ cells, d ∉ c) :
+    d ∉ replicate k sp ++ ([bar].intercalate cells ++ [bar]) ∧
+    (replicate k sp ++ ([bar].intercalate cells ++ [bar])).getLast? = some bar ∧
+    replicate k sp ++ ([bar].intercalate cells ++ [bar]) ≠ [] := by
+  refine ⟨?_, ?_, by simp⟩
+  · intro hm
+    rw [mem_append, mem_append, mem_replicate] at hm
+    rcases hm with hm | hm | hm
+    · exact hd1 hm.2
+    · rcases mem_intercalate_singleton bar d cells hm with h1 | ⟨x, hx, hc⟩
+      · exact hd2 h1
+      · exact h x hx hc
+    · exact hd2 (by simpa using hm)
+  · rw [← append_assoc, getLast?_append_of_ne_nil _ (by simp)]
+    rfl
+
+/-- ONE LINE of the table as `load_file` sees it.  The line is `k` blanks, the cells `c0 :: rest` joined by bars, a closing bar, and
+possibly the line end.  No cell contains the bar or the comment sign; the cells after the first are not empty.  Then:
+`partition('#')[0]` is the line; its `strip()` is `c0` without leading whitespace, a bar, the other cells joined, a bar;
+`partition('|')` of that cuts at the first bar; and when `c0` is all whitespace (the header), `strip('|')` of the stripped line is
+the other cells joined.  (`bar_cells` says what `strip('|')` / `split('|')` make of the part behind the first bar.) -/
+theorem table_line (ws : α → Bool) (sp bar hash nl : α) (hsp : ws sp = true) (hnl : ws nl = true) (hbar : ws bar = false)
+    (hbh : hash ≠ bar) (hsh : hash ≠ sp) (hnh : hash ≠ nl)
+    (k : Nat) (c0 : List α) (rest : List (List α)) (e : List α) (he : e = [] ∨ e = [nl])
+    (h0 : bar ∉ c0 ∧ hash ∉ c0) (hrest : rest ≠ []) (hcells : ∀ c ∈ rest, c ≠ [] ∧ bar ∉ c ∧ hash ∉ c) :
+    before hash (replicate k sp ++ ([bar].intercalate (c0 :: rest) ++ [bar]) ++ e)
+      = replicate k sp ++ ([bar].intercalate (c0 :: rest) ++ [bar]) ++ e ∧
+    strip ws (replicate k sp ++ ([bar].intercalate (c0 :: rest) ++ [bar]) ++ e)
+      = lstrip ws c0 ++ bar :: ([bar].intercalate rest ++ [bar]) ∧
+    before bar (lstrip ws c0 ++ bar :: ([bar].intercalate rest ++ [bar])) = lstrip ws c0 ∧
+    after bar (lstrip ws c0 ++ bar :: ([bar].intercalate rest ++ [bar])) = [bar].intercalate rest ++ [bar] ∧
+    ((∀ c ∈ c0, ws c = true) →
+      stripC bar (lstrip ws c0 ++ bar :: ([bar].intercalate rest ++ [bar])) = [bar].intercalate rest) := by
+  obtain ⟨r, rs, rfl⟩ := exists_cons_of_ne_nil hrest
+  set J := [bar].intercalate (r :: rs) with hJ
+  have hshape : [bar].intercalate (c0 :: r :: rs) ++ [bar] = c0 ++ bar :: (J ++ [bar]) := by
+    rw [intercalate_cons_cons]; simp [hJ]
+  have hews : ∀ c ∈ e, ws c = true := by
+    rcases he with rfl | rfl
+    · simp
+    · simpa using hnl
+  have hehash : hash ∉ e := by
+    rcases he with rfl | rfl
+    · simp
+    · simpa using hnh
+  refine ⟨?_, ?_, ?_, ?_, ?_⟩
+  · apply (before_after_of_not_mem hash _ _).1
+    have := (table_line_chars sp bar hash k (c0 :: r :: rs) hsh hbh (by
+      intro c hc
+      rcases mem_cons.mp hc with rfl | hc
+      · exact h0.2
+      · exact (hcells c hc).2.2)).1
+    intro hm
+    rw [mem_append] at hm
+    rcases hm with hm | hm
+    · exact this hm
+    · exact hehash hm
+  · rw [hshape]
+    exact strip_sandwich ws (replicate k sp) c0 (bar :: (J ++ [bar])) e
+      (by intro c hc; rw [mem_replicate] at hc; rw [hc.2]; exact hsp) hews (by simp)
+      (by intro c hc; simp at hc; rw [← hc]; exact hbar)
+      (by
+        intro c hc
+        rw [show bar :: (J ++ [bar]) = (bar :: J) ++ [bar] by simp, getLast?_append_of_ne_nil _ (by simp)] at hc
+        simp at hc; rw [← hc]; exact hbar)
+  · apply (before_after_append_sep bar _ _ _).1
+    intro hm
+    exact h0.1 ((dropWhile_sublist ws).subset hm)
+  · apply (before_after_append_sep bar _ _ _).2
+    intro hm
+    exact h0.1 ((dropWhile_sublist ws).subset hm)
+  · intro hall
+    rw [lstrip_all ws c0 hall, nil_append]
+    exact (bar_cells bar (r :: rs) (by simp) (fun l hl => ⟨(hcells l hl).1, (hcells l hl).2.1⟩)).2.2.2.1
+
+/-! ### FIMI: rows of decimal indexes separated by single blanks -/
+
+/-- the csv reader on a line written from fields that are not empty and contain no delimiter gives the fields back; a row
+WITHOUT fields is written as the empty line and read back as the row without fields -/
+theorem csvFields_intercalate (sp : α) (ds : List (List α)) (h : ∀ d ∈ ds, d ≠ [] ∧ sp ∉ d) :
+    csvFields sp ([sp].intercalate ds) = ds := by
+  unfold csvFields
+  cases ds with
+  | nil => simp
+  | cons d ds =>
+    have hb := bar_cells sp (d :: ds) (by simp) h
+    rw [if_neg hb.2.2.2.2.2]
+    exact hb.2.2.2.2.1
+
+theorem pyWs_sp : pyWs ' ' = true := by decide
+
+theorem dec_no_sp (n : Nat) : ' ' ∉ dec n := by
+  intro h
+  have := dec_not_ws n ' ' h
+  rw [pyWs_sp] at this
+  exact Bool.noConfusion this
+
+/-- a row of natural numbers, written in decimal with single blanks between them, read back field by field with `int` -/
+theorem fimi_row (r : List Nat) : (csvFields ' ' ([' '].intercalate (r.map dec))).map intOf = r := by
+  rw [csvFields_intercalate ' ' (r.map dec) (by
+    intro d hd
+    rw [mem_map] at hd
+    obtain ⟨n, _, rfl⟩ := hd
+    exact ⟨dec_ne_nil n, dec_no_sp n⟩)]
+  rw [map_map]
+  conv => rhs; rw [← map_id r]
+  apply map_congr_left
+  intro n _
+  exact intOf_dec n
+
+/-- a line without its line end -/
+def chomp (nl : α) (l : List α) : List α := if l.getLast? = some nl then l.dropLast else l
+
+/-- the rows the csv reader (delimiter `sp`, no quoting) makes of a text: line by line (`linesKeep`), line end removed -/
+def csvRows (nl sp : α) (text : List α) : List (List (List α)) :=
+  (linesKeep nl text).map (fun l => csvFields sp (chomp nl l))
+
+theorem csvRows_unlines (nl sp : α) (ls : List (List α)) (h : ∀ l ∈ ls, nl ∉ l) :
+    csvRows nl sp (unlines nl ls) = ls.map (csvFields sp) := by
+  unfold csvRows
+  rw [linesKeep_unlines nl ls h, map_map]
+  apply map_congr_left
+  intro l _
+  simp [chomp]
+
+#print axioms strip_sandwich
+#print axioms strip_lstrip
+#print axioms lstrip_all
+#print axioms rstrip_unlines
+#print axioms strip_ljust
+#print axioms strip_rjust
+#print axioms mem_ljust
+#print axioms ljust_ne_nil
+#print axioms ljust_all
+#print axioms ljust_eq_self
+#print axioms strip_all
+#print axioms not_mem_intercalate
+#print axioms before_after_of_not_mem
+#print axioms before_after_append_sep
+#print axioms sepOf_append_sep
+#print axioms bar_cells
+#print axioms linesKeep_unlines
+#print axioms linesKeep_intercalate
+#print axioms table_line_chars
+#print axioms table_line
+#print axioms csvFields_intercalate
+#print axioms fimi_row
+#print axioms csvRows_unlines
+
 #print axioms cxt_source_parts
 #print axioms splitWs_pair
 #print axioms table_lines
@@ -597,5 +1172,146 @@ theorem cxt_roundtrip (symT symF : Char) (hne : symT ≠ symF)
 #print axioms mem_rowText
 #print axioms length_rowText
 #print axioms cxt_roundtrip
+
+/-! ### the `%` operator of `str` on templates made of literal text and conversions `%-<digits>s` / `%<digits>s`
+
+`pctFormat tmpl args` is `tmpl % tuple(args)` for the FRAGMENT of the format language that `table.dump_file` uses: a literal
+character (other than `'%'`) stands for itself; `'%'`, an optional `'-'`, a run of decimal digits (the minimum width; none = 0) and
+`'s'` consume one argument (a text) and produce it left-justified (`'-'`) or right-justified to that width.  `none` stands for "outside the
+fragment, or TypeError" (too few / too many arguments, an unfinished conversion).  The function reads the template character by character
+(`PctState`: in literal text / behind the `'%'` / in the width).  That CPython's `%` agrees with it on the fragment is the library
+assumption (validated by `pyvc/texts.py: selftest()`, `selftest_lean()`). -/
+
+inductive PctState where
+  | lit : PctState
+  | flag : PctState
+  | width (left : Bool) (w : Nat) : PctState
+
+/-- the padded argument -/
+def pctPad (left : Bool) (w : Nat) (a : List Char) : List Char := if left then ljust ' ' w a else rjust ' ' w a
+
+def pctGo : PctState → List Char → List (List Char) → Option (List Char)
+  | .lit, [], [] => some []
+  | .lit, [], _ :: _ => none
+  | .lit, c :: t, args => if c = '%' then pctGo .flag t args else (pctGo .lit t args).map (fun r => c :: r)
+  | .flag, [], _ => none
+  | .flag, c :: t, args =>
+    if c = '-' then pctGo (.width true 0) t args
+    else if c.isDigit then pctGo (.width false (c.toNat - '0'.toNat)) t args
+    else if c = 's' then
+      match args with
+      | a :: as => (pctGo .lit t as).map (fun r => pctPad false 0 a ++ r)
+      | [] => none
+    else none
+  | .width _ _, [], _ => none
+  | .width left w, c :: t, args =>
+    if c.isDigit then pctGo (.width left (10 * w + (c.toNat - '0'.toNat))) t args
+    else if c = 's' then
+      match args with
+      | a :: as => (pctGo .lit t as).map (fun r => pctPad left w a ++ r)
+      | [] => none
+    else none
+
+/-- `tmpl % tuple(args)` on the fragment -/
+def pctFormat (tmpl : List Char) (args : List (List Char)) : Option (List Char) := pctGo .lit tmpl args
+
+theorem pctGo_lit (t : List Char) (args : List (List Char)) : ∀ lit : List Char, '%' ∉ lit →
+    pctGo .lit (lit ++ t) args = (pctGo .lit t args).map (fun r => lit ++ r)
+  | [], _ => by simp
+  | c :: cs, h => by
+    have hc : c ≠ '%' := fun e => h (by simp [e])
+    have ih := pctGo_lit t args cs (fun e => h (by simp [e]))
+    rw [cons_append, pctGo, if_neg hc, ih]
+    cases pctGo .lit t args <;> simp
+
+theorem ofDigitChars_cons (c : Char) (cs : List Char) (acc : Nat) :
+    Nat.ofDigitChars 10 (c :: cs) acc = Nat.ofDigitChars 10 cs (10 * acc + (c.toNat - '0'.toNat)) := by
+  simp [Nat.ofDigitChars]
+
+/-- in the width: the digits, then `'s'` -/
+theorem pctGo_width (left : Bool) (rest a : List Char) (as : List (List Char)) :
+    ∀ (ds : List Char) (acc : Nat), (∀ c ∈ ds, c.isDigit = true) →
+      pctGo (.width left acc) (ds ++ 's' :: rest) (a :: as)
+        = (pctGo .lit rest as).map (fun r => pctPad left (Nat.ofDigitChars 10 ds acc) a ++ r)
+  | [], acc, _ => by
+    have h1 : Char.isDigit 's' = false := by decide
+    simp [pctGo, h1, Nat.ofDigitChars]
+  | c :: cs, acc, h => by
+    have hc := h c (by simp)
+    have ih := pctGo_width left rest a as cs (10 * acc + (c.toNat - '0'.toNat)) (fun y hy => h y (by simp [hy]))
+    rw [cons_append, pctGo, if_pos hc, ih, ofDigitChars_cons]
+
+/-- `'%-{w:d}s...' % (a, ...)`: the argument left-justified to width `w`, then the rest -/
+theorem pctGo_left (w : Nat) (rest a : List Char) (as : List (List Char)) :
+    pctGo .lit ('%' :: '-' :: (dec w ++ 's' :: rest)) (a :: as) = (pctGo .lit rest as).map (fun r => ljust ' ' w a ++ r) := by
+  rw [pctGo, if_pos rfl, pctGo, if_pos rfl, pctGo_width true rest a as (dec w) 0 (dec_isDigit w)]
+  have : Nat.ofDigitChars 10 (dec w) 0 = w := intOf_dec w
+  rw [this]
+  simp [pctPad]
+
+/-- `'%{w:d}s...' % (a, ...)`: the argument right-justified to width `w`, then the rest -/
+theorem pctGo_right (w : Nat) (rest a : List Char) (as : List (List Char)) :
+    pctGo .lit ('%' :: (dec w ++ 's' :: rest)) (a :: as) = (pctGo .lit rest as).map (fun r => rjust ' ' w a ++ r) := by
+  obtain ⟨d, ds, hd⟩ := exists_cons_of_ne_nil (dec_ne_nil w)
+  have hdig : ∀ c ∈ d :: ds, c.isDigit = true := by rw [← hd]; exact dec_isDigit w
+  have hd1 : d.isDigit = true := hdig d (by simp)
+  have hd2 : d ≠ '-' := by
+    intro e
+    rw [e] at hd1
+    exact absurd hd1 (by decide)
+  have hval : Nat.ofDigitChars 10 (d :: ds) 0 = w := by rw [← hd]; exact intOf_dec w
+  rw [hd, pctGo, if_pos rfl, cons_append, pctGo, if_neg hd2, if_pos hd1,
+    pctGo_width false rest a as ds _ (fun y hy => hdig y (by simp [hy]))]
+  rw [ofDigitChars_cons] at hval
+  simp only [Nat.mul_zero, Nat.zero_add] at hval
+  rw [hval]
+  simp [pctPad]
+
+/-- the column templates of `table.dump_file`: `'%-{w:d}s'` (left) or `'%{w:d}s'` for every width -/
+def colTemplate (left : Bool) (w : Nat) : List Char := '%' :: ((if left then ['-'] else []) ++ (dec w ++ ['s']))
+
+theorem pctGo_col (left : Bool) (w : Nat) (rest a : List Char) (as : List (List Char)) :
+    pctGo .lit (colTemplate left w ++ rest) (a :: as) = (pctGo .lit rest as).map (fun r => pctPad left w a ++ r) := by
+  cases left
+  · have := pctGo_right w rest a as
+    simpa [colTemplate, pctPad] using this
+  · have := pctGo_left w rest a as
+    simpa [colTemplate, pctPad] using this
+
+/-- the columns joined by bars and closed with a bar, applied to one argument per column -/
+theorem pctGo_columns (left : Bool) : ∀ (W : List Nat) (A : List (List Char)), W.length = A.length → W ≠ [] →
+    pctGo .lit (['|'].intercalate (W.map (colTemplate left)) ++ ['|']) A
+      = some (['|'].intercalate (zipWith (fun a w => pctPad left w a) A W) ++ ['|'])
+  | [], _, _, h => absurd rfl h
+  | [w], [a], _, _ => by
+    have hbar : pctGo .lit ['|'] [] = some ['|'] := by simp [pctGo]
+    simp only [map_cons, map_nil, intercalate_singleton, zipWith_cons_cons, zipWith_nil_left]
+    rw [pctGo_col, hbar]
+    simp
+  | [_], [], h, _ => by simp at h
+  | [_], _ :: _ :: _, h, _ => by simp at h
+  | w :: w' :: ws, [], h, _ => by simp at h
+  | w :: w' :: ws, [a], h, _ => by simp at h
+  | w :: w' :: ws, a :: a' :: as, h, _ => by
+    have ih := pctGo_columns left (w' :: ws) (a' :: as) (by simpa using h) (by simp)
+    simp only [map_cons, zipWith_cons_cons] at ih ⊢
+    rw [intercalate_cons_cons, intercalate_cons_cons]
+    rw [show colTemplate left w ++ ['|'] ++ ['|'].intercalate (colTemplate left w' :: map (colTemplate left) ws) ++ ['|']
+        = colTemplate left w ++ ('|' :: (['|'].intercalate (colTemplate left w' :: map (colTemplate left) ws) ++ ['|'])) by simp]
+    rw [pctGo_col, pctGo, if_neg (by decide), ih]
+    simp
+
+/-- THE TEMPLATE OF `table.dump_file` APPLIED:  `(' ' * k + '|'.join(f'%-{w:d}s' for w in W) + '|') % tuple(A)`  is  `' ' * k +
+'|'.join(a.ljust(w) for a, w in zip(A, W)) + '|'`  (`left = false`: without the `-` flags, `rjust`), for one argument per column and at
+least one column -/
+theorem pct_line (left : Bool) (k : Nat) (W : List Nat) (A : List (List Char)) (hlen : W.length = A.length) (hne : W ≠ []) :
+    pctFormat (replicate k ' ' ++ (['|'].intercalate (W.map (colTemplate left)) ++ ['|'])) A
+      = some (replicate k ' ' ++ (['|'].intercalate (zipWith (fun a w => pctPad left w a) A W) ++ ['|'])) := by
+  unfold pctFormat
+  rw [pctGo_lit _ _ (replicate k ' ') (by intro h; rw [mem_replicate] at h; exact absurd h.2 (by decide)),
+    pctGo_columns left W A hlen hne]
+  simp
+
+#print axioms pct_line
 
 end Text
